@@ -266,8 +266,8 @@ impl TerminalRenderer {
     /// Clear terminal
     ///
     /// Forgets what is shown on the terminal, so the next frame repaints
-    /// everything. Content already drawn on the surface for the next frame
-    /// is kept.
+    /// everything. The surface for the next frame is reset too, so it must
+    /// be called before the frame is drawn.
     pub fn clear<T: Terminal + ?Sized>(&mut self, term: &mut T) -> Result<(), Error> {
         // erase all images
         for (pos, cell) in self.back.iter().with_position() {
@@ -277,6 +277,7 @@ impl TerminalRenderer {
         }
 
         self.marks.fill(CellMark::Damaged);
+        self.front.fill(Cell::default());
         self.back.fill(Cell::default());
 
         Ok(())
